@@ -458,6 +458,35 @@ class Interp:
             return
         if d.get("static"):
             raise BrokenAnalysis("%s: static local %s with state" % (f.name, d["name"]))
+        # a local array of integers is one wide value addressed bytewise (little-endian hosts only)
+        arr = re.match(r"^(?:const\s+)?(.*?)\s*\[(\d+)\]$", (d.get("ct") or d.get("t") or "").strip())
+        eti = tparse(arr.group(1).replace("const ", "")) if arr else None
+        if arr and eti and eti[0] == "int" and self.le:
+            cnt, w = int(arr.group(2)), eti[1]
+            if d.get("init") is None:
+                st.frames[-1][d["name"]] = BV([None] * (cnt * w), False)
+                yield from self.exec_decls(st, decls, i + 1, f, depth)
+                return
+            if d["init"].get("k") == "InitListExpr":
+                elems = [x for x in d["init"].get("kids", [])]
+                if len(elems) > cnt:
+                    raise BrokenAnalysis("%s: more initialisers than elements (%s)" % (f.name, self.where(f, d["init"])))
+
+                def fill(s, j, bits):
+                    if j >= len(elems):
+                        s.frames[-1][d["name"]] = BV(bits + [0] * ((cnt - len(elems)) * w), False)
+                        yield from self.exec_decls(s, decls, i + 1, f, depth)
+                        return
+                    if elems[j].get("k") == "ImplicitValueInitExpr":
+                        yield from fill(s, j + 1, bits + [0] * w)
+                        return
+                    for s2, v in self.ev(s, elems[j], f, depth):
+                        if not isinstance(v, BV):
+                            raise BrokenAnalysis("%s: non-integer array initialiser (%s)" % (f.name, self.where(f, elems[j])))
+                        v = self.convert(v, eti)
+                        yield from fill(s2, j + 1, bits + list(v.bits))
+                yield from fill(st, 0, [])
+                return
         if d.get("init") is None:
             if ti and ti[0] == "int":
                 st.frames[-1][d["name"]] = BV([None] * ti[1], ti[2])
